@@ -868,7 +868,7 @@ static int ec_exec(char *loc, char *cmd, char *arg, char *txt)
 		ex_print(NULL);
 		return cmd_exec(ecmd);
 	}
-	if (ex_region(loc, &beg, &end))
+	if (ex_region(loc, &beg, &end) || (!end && lbuf_len(xb)))
 		return 1;
 	text = lbuf_cp(xb, beg, end);
 	rep = cmd_pipe(ecmd, text, 1);
@@ -1085,7 +1085,7 @@ static int ec_at(char *loc, char *cmd, char *arg, char *txt)
 	int beg, end;
 	int lnmode;
 	char *buf = reg_get(REG(arg), &lnmode);
-	if (!buf || ex_region(loc, &beg, &end))
+	if (!buf || ex_region(loc, &beg, &end) || (!end && lbuf_len(xb)))
 		return 1;
 	xrow = beg;
 	if (cmd[0] == 'r' && cmd[1] == 'a') {
